@@ -409,6 +409,9 @@ def r7_review_closes(cx):
                r"^match\(.*Iterator.*next\)=(None|Some)$", r"^match\(.*branch.*\)=Continue$",
                # what the scan tests on each CHILD before it counts it (a failed / skipped / resumable child ends the scan)
                r"^TaskState::is_(error|skip|success|pending)=False$", r"^Task::is_ready=False$", r"is_empty=True$",
+               # an act that is completed from outside (auto-complete off: a subflow act is closed by its sub workflow's return,
+               # C15.R3) is not closed by its children
+               r"^Task::is_auto_complete=True$",
                ]
     n = 0
     for q, f in sorted(m.fns.items()):
